@@ -31,6 +31,10 @@
 //!                                which detaches the forwarding tasks)            -> ok
 //!                                afterwards: pub / sub -> closed; a grant must end with done=true
 //!
+//! converter `suicide`: identity which, called with an original message m (m % 8 == 6), calls
+//! `drain()` on its OWN subscriber actor before returning Some(m): the subscriber stops accepting in
+//! the middle of a batch (v2) / of a forwarding iteration (v1), the send of that very message fails.
+//!
 //! converter `echo`: identity which, when called with an original message m (m < ECHO_BASE,
 //! m % 4 == 0), publishes m + ECHO_BASE*(key+1) on the very same port from INSIDE the converter
 //! call (through a `Weak`): a publication landing in the middle of a poll of the port task /
@@ -54,7 +58,7 @@ fn conv(kind: &str, m: u64) -> Option<u64> {
         "odd" => (m % 2 == 1).then_some(m),
         "none" => None,
         "dbl" => Some(2 * m),
-        "echo" | "dropper" => Some(m),
+        "echo" | "dropper" | "suicide" => Some(m),
         _ => (m % 3 == 0).then_some(m + 1000),
     }
 }
@@ -66,6 +70,8 @@ static CALLS: Mutex<Vec<(u64, u64)>> = Mutex::new(Vec::new());
 /// key of the (single) subscription of the case made through `OutputPortSubscriberTrait`
 /// publications made from inside a converter call (statistics)
 static REPUBS: std::sync::atomic::AtomicU64 = std::sync::atomic::AtomicU64::new(0);
+/// subscribers drained from inside their own converter call (statistics)
+static SUICIDES: std::sync::atomic::AtomicU64 = std::sync::atomic::AtomicU64::new(0);
 /// port drops performed from inside a converter call (statistics)
 static MIDDROPS: std::sync::atomic::AtomicU64 = std::sync::atomic::AtomicU64::new(0);
 static FROM_KEY: std::sync::atomic::AtomicU64 = std::sync::atomic::AtomicU64::new(u64::MAX);
@@ -338,6 +344,13 @@ impl World {
                     st.bump("sub_dropper");
                 }
                 let cell = self.port.clone();
+                // `suicide`: the converter drains its OWN subscriber from inside the call, before returning
+                // Some: the subscriber stops accepting in the middle of a batch / of an iteration
+                let suicide = kind == "suicide";
+                if suicide {
+                    st.bump("sub_suicide");
+                }
+                let own = self.actors[a].0.clone();
                 if kind == "from" {
                     // the public trait-object route: `Box<dyn OutputPortSubscriberTrait<u64>>`
                     if FROM_KEY.load(std::sync::atomic::Ordering::SeqCst) != u64::MAX {
@@ -356,6 +369,10 @@ impl World {
                             p.send(m + ECHO_BASE * (key + 1));
                             REPUBS.fetch_add(1, std::sync::atomic::Ordering::SeqCst);
                         }
+                    }
+                    if suicide && m < ECHO_BASE && m % 8 == 6 {
+                        let _ = own.drain();
+                        SUICIDES.fetch_add(1, std::sync::atomic::Ordering::SeqCst);
                     }
                     if dropper && m < ECHO_BASE && m % 8 == 4 {
                         // the port is dropped from inside the converter call = in the middle of the poll
@@ -593,6 +610,8 @@ fn gen_case(rng: &mut Rng, n: u64) -> Vec<String> {
             let key = keys.len() as u64;
             if echo_case && rng.chance(1, 3) {
                 ops.push(format!("sub {key} 0 {}", if rng.chance(1, 4) { "dropper" } else { "echo" }));
+            } else if !echo_case && rng.chance(1, 8) {
+                ops.push(format!("sub {key} {} suicide", rng.below(nactors)));
             } else if !from_used && rng.chance(1, 6) {
                 from_used = true;
                 ops.push(format!("sub {key} {} from", rng.below(nactors)));
@@ -850,6 +869,7 @@ async fn main() {
         }
     }
     st.add("reentrant_pub_inside_converter_call", REPUBS.load(std::sync::atomic::Ordering::SeqCst));
+    st.add("subscriber_drained_inside_its_own_converter_call", SUICIDES.load(std::sync::atomic::Ordering::SeqCst));
     st.add("port_dropped_inside_converter_call", MIDDROPS.load(std::sync::atomic::Ordering::SeqCst));
     st.add("lines", log.lines);
     st.write_json(&std::path::Path::new(&out).join("stats.json"));
